@@ -2,7 +2,7 @@
    [stmt] of the property holds on the model's own observation, which never contains a panic.  Together with the correspondence
    (implementation observation = model observation on the generated cases) this is what makes the judge's verdict meaningful. *)
 From CSL Require Import Base.Prelude Base.Hex Cbor.Head Crypto.Iface Crypto.Wrappers Crypto.WrappersProofs
-  Crypto.Emip3 Crypto.Emip3Proofs Crypto.Obs.
+  Crypto.Emip3 Crypto.Emip3Proofs Crypto.Obs Crypto.Bech32Inst.
 Local Open Scope N_scope.
 
 Definition all_laws (P : prims) : Prop :=
@@ -235,7 +235,7 @@ Proof.
     destruct (sk_of_tk_signable wk k Hb V) as [S U]. cbn zeta in *. rewrite U. split; [reflexivity|].
     cbn [stmt]. rewrite W1, E.
     destruct (vkey_witness_signs_hash P h _ LN LE S) as (A & B & C). cbn zeta in *.
-    rewrite C, A, B, !list_eqb_refl. reflexivity. }
+    rewrite C. cbn [make_vkey_witness vw_vkey vw_sig]. rewrite !list_eqb_refl, obs_eqb_refl. reflexivity. }
   destruct (wk =? 2) eqn:W2.
   { unfold xprv_from_bytes. destruct (kt_from_binary_cases T_xprv k) as [E|E]; rewrite E; [|split; reflexivity].
     split; [reflexivity|]. cbn [stmt]. rewrite W1.
@@ -248,7 +248,8 @@ Proof.
   rewrite nth31_first64, C.
   destruct (daedalus_witness_signs_hash P h (byron_attributes dp mg) k LE LS (conj L Hb)) as (w & A & B1 & B2 & B3 & B4 & _ & B6);
     [rewrite nth31_first64; exact C|].
-  rewrite A. split; [reflexivity|]. cbn [stmt]. rewrite W1, B3, B1, B2, B4, B6, !list_eqb_refl, obs_eqb_refl. reflexivity.
+  rewrite A. destruct w as [wv ws wc wa]. cbn [bw_vkey bw_sig bw_cc bw_attrs] in *. subst wv ws wc wa.
+  split; [reflexivity|]. cbn [stmt]. rewrite W1, B3, !list_eqb_refl, obs_eqb_refl. reflexivity.
 Qed.
 
 (* ---------- derivation ---------- *)
@@ -402,3 +403,16 @@ Proof.
 Qed.
 
 End JudgeProofs.
+
+(* with the concrete bech32 codec only the twelve laws about the cryptographic primitives remain premises *)
+Definition crypto_laws (P : prims) : Prop :=
+  law_shapes P /\ law_sign_normal P /\ law_sign_extended P /\ law_xpub_layout P /\ law_soft_derivation P /\
+  law_hard_refused P /\ law_normalize3 P /\ law_pbkdf2_bip39_shape P /\
+  law_aead_roundtrip P /\ law_aead_shapes P /\ law_aead_authentic P /\ law_aead_plain_by_ct P.
+
+Lemma all_laws_concrete P : crypto_laws P -> all_laws (with_bech32 P).
+Proof.
+  intros (A & B & C & D & E & F & G & H & I & J & K & L).
+  exact (conj A (conj B (conj C (conj D (conj E (conj F (conj G (conj H (conj I (conj J (conj K (conj L
+        (conj (concrete_base32_roundtrip P) (concrete_bech32_roundtrip P)))))))))))))).
+Qed.
